@@ -42,10 +42,25 @@ for it in range(n):
             rows.append(mk())
     data = np.array(rows, dtype=np.double)
     k = rng.randint(1, ns - 1)
+    tight = (it % 3 == 2)
+    if tight:
+        # many series at equal or nearly equal distance from several means: short series over a handful of small integers,
+        # duplicates, two clusters (where the order of "update the means" and "assign" shows)
+        # R three times, S two steps away along one axis, Q equally far from R and S, P pulling R's mean a little
+        nd, ln, ns, k = 1, 3, 6, 2
+        R_ = [float(rng.randint(1, 4)) for _ in range(3)]
+        a_, b_, c_ = rng.sample(range(3), 3)
+        sa_, sb_ = rng.choice([-1.0, 1.0]), rng.choice([-1.0, 1.0])
+        S_ = list(R_); S_[a_] += 2 * sa_                                    # noqa: E702
+        Q_ = list(R_); Q_[a_] += sa_; Q_[b_] += sb_                           # noqa: E702
+        P_ = list(R_); P_[a_] -= sa_; P_[b_] -= sb_; P_[c_] += rng.choice([-1.0, 1.0])      # noqa: E702
+        rows = [P_, Q_, list(R_), list(R_), S_, list(R_)]
+        rng.shuffle(rows)
+        data = np.array(rows, dtype=np.double)
     opts = {}
-    if rng.random() < 0.4:
+    if rng.random() < 0.4 and not tight:
         opts['window'] = rng.randint(1, 3)
-    if rng.random() < 0.3:
+    if rng.random() < 0.3 and not tight:
         opts['penalty'] = rng.choice([0.5, 1.0])
     use_c = rng.random() < 0.5
     if use_c:
@@ -53,13 +68,22 @@ for it in range(n):
     init = rng.choice(['kmeans++', 'kmeans++', 'random', 'sample'])
     kw = dict(max_it=rng.choice([1, 3, 10]), max_dba_it=rng.choice([1, 5]), drop_stddev=rng.choice([None, None, 1, 2]),
               dists_options=dict(opts), show_progress=False)
+    # the convergence threshold is an absolute change of the means: besides the default, values of the order of the data
+    # (the loop then stops while the means still move, and the returned assignment must be the one for the returned means)
+    thr = rng.choice([None, None, 0.02, 0.05, 0.2])
+    if tight:
+        thr = rng.choice([0.05, 0.1])
+        kw.update(max_it=10, max_dba_it=10, drop_stddev=None)
+        init = 'kmeans++'
+    if thr is not None:
+        kw['thr'] = thr
     if init == 'random':
         kw['initialize_with_kmeanspp'] = False
     if init == 'sample':
         kw['initialize_sample_size'] = rng.randint(1, 3)
     parallel = (it % 25 == 0)
     sd = rng.randint(0, 10 ** 6)
-    desc = dict(k=k, opts=opts, init=init, max_it=kw['max_it'], max_dba_it=kw['max_dba_it'], drop_stddev=kw['drop_stddev'],
+    desc = dict(k=k, opts=opts, init=init, thr=thr, max_it=kw['max_it'], max_dba_it=kw['max_dba_it'], drop_stddev=kw['drop_stddev'],
                 parallel=parallel, seed=sd, ndim=nd)
     distinct.add((ns, k, nd, init, use_c, kw['drop_stddev'], tuple(sorted(opts))))
     np.random.seed(sd)
